@@ -210,29 +210,30 @@ def resolveReference (env : Env) (container : String) (inherit : Nat)
 def stepIndices (content : List Content) : List Nat :=
   (List.range content.length).filter (fun i => ((content[i]?).map Content.isStep).getD false)
 
-/-- `resolve_intermediate_ref` -/
+/-- `resolve_intermediate_ref`, the pure part: the target, or the kind of the error -/
+def interRefTarget (content : List Content) (nSections : Nat) (d : InterData) : Except String IngredientRelation :=
+  let val := d.val.toNat
+  if val == 0 then .error (if d.relative then "inter-ref-self" else "inter-ref-zero") else
+  match d.isSection, d.relative with
+  | false, false =>
+    match (stepIndices content)[val - 1]? with
+    | some i => .ok ⟨.reference i, some .step⟩
+    | none => .error "inter-ref-bounds"
+  | false, true =>
+    match (stepIndices content).reverse[val - 1]? with
+    | some i => .ok ⟨.reference i, some .step⟩
+    | none => .error "inter-ref-bounds"
+  | true, false =>
+    if val - 1 ≥ nSections then .error "inter-ref-bounds" else .ok ⟨.reference (val - 1), some .section⟩
+  | true, true =>
+    if val > nSections then .error "inter-ref-bounds" else .ok ⟨.reference (nSections - val), some .section⟩
+
 def resolveInterRef (d : Loc InterData) : A α (Option IngredientRelation) := do
   let s ← get
   if d.val.val < 0 then apanic "resolve_intermediate_ref: negative value"
-  let val := d.val.val.toNat
-  if val == 0 then
-    aerr (if d.val.relative then "inter-ref-self" else "inter-ref-zero") [d.span]
-    return none
-  match d.val.isSection, d.val.relative with
-  | false, false =>
-    match (stepIndices s.cur.content)[val - 1]? with
-    | some i => return some ⟨.reference i, some .step⟩
-    | none => aerr "inter-ref-bounds" [d.span]; return none
-  | false, true =>
-    match (stepIndices s.cur.content).reverse[val - 1]? with
-    | some i => return some ⟨.reference i, some .step⟩
-    | none => aerr "inter-ref-bounds" [d.span]; return none
-  | true, false =>
-    if val - 1 ≥ s.sections.length then aerr "inter-ref-bounds" [d.span]; return none
-    else return some ⟨.reference (val - 1), some .section⟩
-  | true, true =>
-    if val > s.sections.length then aerr "inter-ref-bounds" [d.span]; return none
-    else return some ⟨.reference (s.sections.length - val), some .section⟩
+  match interRefTarget s.cur.content s.sections.length d.val with
+  | .ok rel => return some rel
+  | .error kind => aerr kind [d.span]; return none
 
 /-- label of `note_reference_error` (after the repair): the note span widened over adjacent parentheses -/
 def byteAt (input : Str) (pos : Nat) : Option Char :=
